@@ -88,6 +88,7 @@ fn one_hash(idx: usize, seed: u64, local_pk: secp256k1::PublicKey, cfg: &SimCfg,
             raw_payload_hex: None,
             label,
             gate: Gate::None,
+            hash_hex_override: None,
         });
     }
     (info, htlcs)
